@@ -86,7 +86,8 @@ int main(int argc, char **argv)
 			char t[512]; snprintf(t, sizeof t, "%s/viol.%llu.plan", violdir, (unsigned long long)i);
 			write_file(t, text);
 		}
-		if (samples > 0 && violdir && (int)(i - from) < samples && r.nontrivial) {
+		if (samples > 0 && violdir && r.nontrivial && !r.viol) {
+			samples--;
 			char t[512]; snprintf(t, sizeof t, "%s/sample.%llu.plan", violdir, (unsigned long long)i);
 			write_file(t, text);
 		}
